@@ -15,7 +15,7 @@ ENGINE = "E1 bounded-exhaustive generation-tree explorer + E3 product automata"
 RULE = (
     "B: EVERY n in 1..N written as '<k> = B n' into packed sync sections (10^4 lines per chart) and parsed by Chart.from_file; "
     "each bpm must be the float n/1000 and the chart accepted; plus powers of ten / two up to 18 digits. TS/A: every (u, l) of "
-    "0..64 u {10^k-1} x {absent, 0..16}, anchor values around powers of ten, tick digit strings with leading zeros and up to 15 "
+    "0..64 u {10^k-1} x {absent, 0..16}, anchor values around powers of ten and two up to the largest representable time (8.64*10^19 us), tick digit strings with leading zeros and up to 15 "
     "digits, single lines and sequences of 2-3 lines within one and across tempo segments. distinct = distinct decoded line; "
     "non-trivial = all"
 )
@@ -184,7 +184,7 @@ def run_shard(shard, ctx):
                 line = "7 = TS %d" % u if l is None else "7 = TS %d %d" % (u, l)
                 check_lines(ctx, [line], [[7, u, 4 if l is None else 2**l]], [], "time signature")
     elif kind == "A":
-        vals = sorted({0, 1, 999999, 10**6} | {10**k + d for k in range(1, 16) for d in (-1, 0, 1)})
+        vals = sorted({0, 1, 999999, 10**6, 8589934592000001, 12345678901234567, 86399999999999999999} | {10**k + d for k in range(1, 20) for d in (-1, 0, 1)} | {2**k + d for k in range(20, 66, 3) for d in (-1, 1)})
         for v in vals:
             check_lines(ctx, ["3 = A %d" % v], [], [[3, v]], "anchor")
     elif kind == "ticks":
